@@ -63,6 +63,20 @@ def hostile_world(pair, r, res, tier, nblocks, clears):
     n = w.wspec.length
     reqs = [c[2] for c in CORPUS_REQ if c[0] == nblocks and c[1] == clears]
     reqs += hostile_requests(r, n, 150 if tier == "quick" else 2500)
+    # well-formed-looking requests against OLDER lengths of the log (a peer that learnt the length before the last appends):
+    # every upgrade range ending at or before the current length, with and without seek / block / hash sections
+    if 0 < n <= 24:
+        total = w.wspec.byte_length
+        older = []
+        for end in range(1, n + 1):
+            for start in sorted(set([0, 1, end // 2, max(end - 1, 0)])):
+                if start < end:
+                    for sk in ("-", "0", str(max(total // 2, 0)), str(max(total - 1, 0))):
+                        older.append(("-", "-", sk, "%d,%d" % (start, end - start)))
+                        older.append(("%d,0" % r.randrange(end), "-", sk, "%d,%d" % (start, end - start)))
+                        older.append(("-", "%d,0" % (2 * r.randrange(end)), sk, "%d,%d" % (start, end - start)))
+        r.shuffle(older)
+        reqs += older[:(250 if tier == "quick" else len(older))]
     for (b, h, s, u) in reqs:
         res.count("hostile-request")
         ia, ma = w.prove(b, h, s, u)
